@@ -388,3 +388,159 @@ def affine_of(fn, o, depth=0):
             return None
         return None
     return None
+
+
+# ------------------------------------------------------------------ A2 flag-specialised reachability
+def _known_bool(fn, l, pm, fm, depth=0):
+    """value of bool local l under the context (param map pm, self-field map fm) or None"""
+    if depth > 12:
+        return None
+    if 1 <= l <= fn.argc and l in pm and not fn.defs.get(l):
+        return pm[l]
+    d = fn.single_def(l)
+    if d is None:
+        return pm.get(l) if 1 <= l <= fn.argc else None
+    if d[0] != "stmt":
+        return None
+    rv = d[3]["rv"]
+    if rv["k"] == "use":
+        o = rv["op"]
+        if o["k"] == "const":
+            v = o.get("int")
+            return bool(int(v)) if v is not None and o.get("ty") == "bool" else None
+        p = o["p"]
+        if not p[1]:
+            return _known_bool(fn, p[0], pm, fm, depth + 1)
+        # field of self
+        names = [e[2] for e in p[1] if isinstance(e, list) and e[0] == "."]
+        if names and p[0] == 1 and names[-1] in fm:
+            return fm[names[-1]]
+        if names:
+            s = fn.src(p[0])
+            if s == ("param", 1) and names[-1] in fm:
+                return fm[names[-1]]
+        return None
+    if rv["k"] == "unop" and rv["op"] == "Not":
+        l2 = op_local(rv["a"])
+        if l2 is None:
+            return None
+        v = _known_bool(fn, l2, pm, fm, depth + 1)
+        return None if v is None else (not v)
+    return None
+
+
+def live_blocks(fn, pm, fm):
+    """blocks reachable from entry when switches on known bools are pruned"""
+    seen = {0}
+    st = [0]
+    while st:
+        b = st.pop()
+        t = fn.blocks[b]["term"]
+        succ = fn.succs(b)
+        if t["k"] == "switch" and t.get("dty") == "bool":
+            l = op_local(t["discr"])
+            v = _known_bool(fn, l, pm, fm) if l is not None else None
+            if v is not None:
+                tgt = None
+                for val, tg in t["targets"]:
+                    if int(val) == int(v):
+                        tgt = tg
+                succ = [tgt if tgt is not None else t["otherwise"]]
+        for s in succ:
+            if s not in seen:
+                seen.add(s)
+                st.append(s)
+    return seen
+
+
+def specialised_reach(prog, entries, stop=()):
+    """entries: iterable of (fn id, {param index: bool}, {self field: bool}).
+    Returns dict fn id -> list of contexts reached, and the set of (caller, callee, line) edges."""
+    stop = set(stop)
+    seen = set()
+    reached = {}
+    via = {}
+    work = [(e[0], dict(e[1]), dict(e[2]), None) for e in entries]
+    local_traits = set(prog.traits)
+    while work:
+        fid, pm, fm, parent = work.pop()
+        key = (fid, tuple(sorted(pm.items())), tuple(sorted(fm.items())))
+        if key in seen:
+            continue
+        seen.add(key)
+        if fid not in reached:
+            via[fid] = parent
+        reached.setdefault(fid, []).append((pm, fm))
+        if fid in stop:
+            continue
+        fn = prog.fns.get(fid)
+        if fn is None:
+            continue
+        live = live_blocks(fn, pm, fm)
+        for c in prog.closures_of(fn):
+            work.append((c.id, {}, {}, (fid, c.line)))
+        for b in live:
+            t = fn.blocks[b]["term"]
+            if t["k"] not in ("call", "tailcall"):
+                continue
+            targets = []
+            st = t.get("st")
+            callback = False
+            if st == "R" and t["callee"] in prog.fns:
+                targets.append(t["callee"])
+            elif st == "U" and t.get("trait") in local_traits:
+                name = t["callee"].rsplit("::", 1)[-1]
+                for im in prog.impls_of.get(t["trait"], []):
+                    m = im["methods"].get(name)
+                    if m:
+                        targets.append(m)
+                if t["callee"] in prog.fns:
+                    targets.append(t["callee"])
+            else:
+                callback = True
+                for a in t.get("arg_adts", []):
+                    if a in prog.fns:
+                        targets.append(a)
+                        continue
+                    for im in prog.adt_impls.get(a, []):
+                        if im["trait"] in prog.traits:
+                            continue
+                        targets.extend(im["methods"].values())
+            for tg in targets:
+                cf = prog.fns.get(tg)
+                if cf is None:
+                    continue
+                cpm = {}
+                cfm = {}
+                if not callback:
+                    for i, a in enumerate(t["args"]):
+                        if a["k"] == "const":
+                            if a.get("ty") == "bool" and "int" in a:
+                                cpm[i + 1] = bool(int(a["int"]))
+                            continue
+                        l = op_local(a)
+                        if l is None:
+                            continue
+                        if fn.locals[l]["ty"] == "bool":
+                            v = _known_bool(fn, l, pm, fm)
+                            if v is not None:
+                                cpm[i + 1] = v
+                    # self passed through unchanged keeps the field knowledge
+                    if t["args"]:
+                        l0 = op_local(t["args"][0])
+                        if l0 is not None and fn.src(l0) == ("param", 1) and cf.self_adt == fn.self_adt:
+                            cfm = dict(fm)
+                work.append((tg, cpm, cfm, (fid, t["ln"])))
+    return reached, via
+
+
+def path_to(via, fid):
+    out = []
+    cur = fid
+    n = 0
+    while cur is not None and n < 40:
+        p = via.get(cur)
+        out.append((cur, p[1] if p else None))
+        cur = p[0] if p else None
+        n += 1
+    return list(reversed(out))
